@@ -169,7 +169,8 @@ if not rc and obligations:
     if tie_proved:
         audit = "import JenVerif.Tie.All\n" + audit + "".join("#print axioms Tie.%s\n" % t for t in sorted(set(TIE_THEOREMS.values()) | {"register_src_keeps_invariant", "register_src_fuel_stable", "renderImports_src_of_inv", "File_Render_eq_of_inv", "File_Save_eq_of_inv",
                                                                                                                                      "srcRec_null", "srcRec_render", "srcRec_render_strong",
-                                                                                                                                     "File_Render_closed", "File_Save_closed", "Statement_RenderWithFile_closed", "Group_RenderWithFile_closed", "Statement_GoString_closed", "Group_GoString_closed"}))
+                                                                                                                                     "File_Render_closed", "File_Save_closed", "Statement_RenderWithFile_closed", "Group_RenderWithFile_closed", "Statement_GoString_closed", "Group_GoString_closed",
+                                                                                                                                     "C10_render_on_code", "C10_save_on_code", "C13_insert_void_on_code", "C08_rerender_on_code", "carried_prev_is_previous"}))
     ap = "%s/audit_%s.lean" % (BUILD, prop)
     open(ap, "w").write(audit)
     rca, aout = sh("lake env lean %s" % ap, cwd=LEAN, timeout=600)
@@ -179,7 +180,7 @@ if not rc and obligations:
     bad = {n: a for n, a in axioms.items() if set(a) - ALLOWED_AXIOMS}
     missing = [n for n in obligations if n not in axioms]
     if tie_proved and "register_src_eq_model" not in axioms: missing.append("Tie.register_src_eq_model")
-    tie_axioms = {k: v for k, v in axioms.items() if k in TIE_THEOREMS.values() or k.startswith("register_src_") or k.startswith("renderImports_src_") or k.endswith("_of_inv") or k.startswith("srcRec_") or k.endswith("_closed")}
+    tie_axioms = {k: v for k, v in axioms.items() if k in TIE_THEOREMS.values() or k.startswith("register_src_") or k.startswith("renderImports_src_") or k.endswith("_of_inv") or k.startswith("srcRec_") or k.endswith("_closed") or k.endswith("_on_code") or k == "carried_prev_is_previous"}
     for k in tie_axioms: axioms.pop(k)
     bad.update({n: a for n, a in tie_axioms.items() if set(a) - ALLOWED_AXIOMS})
     if bad or grep_hits or rca or missing:
